@@ -6,7 +6,7 @@ thread_local! {
     /// (type index, serial) of every component dropped since the log was last drained
     pub static DROPS: RefCell<Vec<(u64, u64)>> = RefCell::new(Vec::new());
     /// fresh serials for clones (mirrored by the model where clones are modelled)
-    pub static CLONE_SERIAL: RefCell<u64> = RefCell::new(1 << 40);
+    pub static CLONE_SERIAL: RefCell<u64> = RefCell::new(1 << 30);
 }
 
 thread_local! {
@@ -19,7 +19,7 @@ pub fn drain_clones() -> Vec<(u64, u64)> {
 }
 
 pub fn reset_clone_serial() {
-    CLONE_SERIAL.with(|c| *c.borrow_mut() = 1 << 40);
+    CLONE_SERIAL.with(|c| *c.borrow_mut() = 1 << 30);
     drain_clones();
 }
 
